@@ -15,9 +15,8 @@ ORACLE_CODES = {
          "with the next index (neither an error nor the state at the end of the last contiguous segment)"),
     21: ("C19/continuation-segment-of-other-index-appended-undetected",
          "RestoreV3 returned a database although the first segment of a WAL index is missing: the following "
-         "segment of that index has a non-zero offset equal to the bytes written to the previous WAL file, the "
-         "index of continuation segments is never compared, so it is appended to the previous WAL file and no "
-         "error is raised"),
+         "segment of that index has a non-zero offset equal to the bytes written to the previous WAL file and was "
+         "appended to that file (the index test of continuation segments added by 842e1af is gone or ineffective)"),
     22: ("C19/gap-not-detected",
          "RestoreV3 returned a database although the eligible segments have an index gap or an offset gap"),
     30: ("C19/not-newest-eligible-snapshot",
